@@ -154,6 +154,7 @@ class Tracer:
         self.max_depth = max_depth
         self.follow_exceptions = follow_exceptions
         self._stack = []
+        self._root_cls = None
         self._ovr = {}
 
     # ------------------------------------------------------------------------------------------
@@ -170,6 +171,7 @@ class Tracer:
         if a.kwarg:
             p.env[a.kwarg.arg] = Val(ast.Name(id=a.kwarg.arg, ctx=ast.Load()), tags={'kwarg'})
         self._stack = [fi.qualname]
+        self._root_cls = fi.cls.name if fi.cls is not None else None
         Path.budget = [self.max_paths * 4]
         body = fi.node.body
         if upto is not None:
@@ -316,13 +318,34 @@ class Tracer:
                             one.env[nm] = Val(ast.Call(func=ast.Name(id='carried', ctx=ast.Load()), args=[cur.ast], keywords=[]), tags=cur.tags)
                 if not const_true:
                     self._add_fact(one, t, True)
-                for r in self._block(s.body, [one], fi, depth):
-                    r.loop -= 1
-                    if r.status in ('break', 'continue') or r.status is None:
-                        r.status = None
-                        outs.append(r)
-                    else:
-                        outs.append(r)
+                if not const_true:
+                    for r in self._block(s.body, [one], fi, depth):
+                        r.loop -= 1
+                        if r.status in ('break', 'continue') or r.status is None:
+                            r.status = None
+                            outs.append(r)
+                        else:
+                            outs.append(r)
+                else:
+                    # `while True`: the loop is left by break / return / raise only.  Two iterations are unrolled; a path that is
+                    # still inside the loop after the second one is cut (it is a prefix of longer executions, not an exit)
+                    cur = [one]
+                    for _round in (1, 2):
+                        nxt = []
+                        for r in self._block(s.body, cur, fi, depth):
+                            if r.status == 'break':
+                                r.loop -= 1
+                                r.status = None
+                                outs.append(r)
+                            elif r.status in (None, 'continue'):
+                                r.status = None
+                                nxt.append(r)
+                            else:
+                                r.loop -= 1
+                                outs.append(r)
+                        cur = nxt
+                        if len(cur) > self.max_paths:
+                            raise AnalysisError('tracer: path explosion in a `while True` loop of %s' % fi.qualname)
             return outs
         if isinstance(s, (ast.With, ast.AsyncWith)):
             cur = [p]
@@ -398,7 +421,7 @@ class Tracer:
                         r.env = dict(before.env)
                         r.status = None
                         r.ret = None
-                        r.facts = list(before.facts)
+                        # facts established while the statement ran are kept: the events recorded with them stay interpretable
                         r.events.append(Event('exc', node=st, fn=fi.qualname, depth=depth))
                         exc_points.append(r)
                 nxt.extend(self._stmt(st, q, fi, depth))
@@ -766,7 +789,7 @@ class Tracer:
         return [(q, Val(node, tags=tags | {'comprehension'}, elems=None))]
 
     # ------------------------------------------------------------------------------------------
-    def _resolve(self, call, fi, fval):
+    def _resolve(self, call, fi, fval, argvals=None):
         """FuncInfo to inline for this call or None"""
         f = call.func
         if fval is not None and fval.closure is not None:
@@ -788,6 +811,14 @@ class Tracer:
                 recv = recv.value
             r = unparse(recv)
             cls = fi.cls.name if fi.cls is not None else None
+            if r not in ('self', 'cls', 'super()') and r not in self.repo.classes and fval is not None and isinstance(fval.ast, ast.Attribute):
+                # the receiver is a local / parameter that holds the traced function's own `self` (helper taking the node)
+                rv = fval.ast.value
+                if isinstance(rv, ast.Attribute) and rv.attr == 'ayns':
+                    rv = rv.value
+                if isinstance(rv, ast.Name) and rv.id == 'self' and self._root_cls is not None:
+                    r = 'self'
+                    cls = self._root_cls
             if r in ('self', 'cls') and cls:
                 t = self.repo.resolve(cls, f.attr, ayns=via)
                 if t is not None and f.attr not in self.inline_extra and t.qualname not in self.inline_extra and self._overridden_below(cls, f.attr, via, t):
@@ -799,8 +830,9 @@ class Tracer:
             if r in self.repo.classes:
                 t = self.repo.resolve(r, f.attr, ayns=via)
                 if t is not None:
-                    explicit_self = bool(call.args) and unparse(call.args[0]) == 'self'
-                    same_family = cls is not None and (r in self.repo.mro(cls) or cls in self.repo.mro(r))
+                    explicit_self = (bool(call.args) and unparse(call.args[0]) == 'self') or (bool(argvals) and argvals[0].text == 'self' and self._stack and self._root_cls is not None)
+                    fam = cls if cls is not None else self._root_cls
+                    same_family = fam is not None and (r in self.repo.mro(fam) or fam in self.repo.mro(r))
                     if t.is_static or t.is_classmethod:
                         # helpers of the same class family (private ones) are part of the function; public utilities
                         # of other classes (NodePath.get_list_path, ...) stay call events unless a rule asks for them
@@ -862,7 +894,7 @@ class Tracer:
         attr = f.attr if isinstance(f, ast.Attribute) else (f.id if isinstance(f, ast.Name) else None)
         if isinstance(f, ast.Name) and fv is not None and isinstance(callee_ast, ast.Attribute):
             attr = callee_ast.attr      # called through a local that holds `X.method`: the event is about the method
-        target = self._resolve(e, fi, fv)
+        target = self._resolve(e, fi, fv, args)
         name = attr
         inline = False
         if target is not None and target[0] is not None:
